@@ -374,8 +374,6 @@ class Gen:
                 terms = old[::-1]
             elif old:
                 terms = [[old[0][0], not old[0][1]]] + old[1:]
-        if sh.compound and sh.eng == "sql" and self.rng.random() < 0.85:
-            terms = [[["ref", self.rng.choice(sorted(sh.cols))], t[1]] for t in terms]     # (known finding F25 otherwise)
         self.ops.append({"k": "sort", "t": i, "terms": terms, **fl})
         self.pool.append(sh.copy(pending=True, eng=self._after_flags(sh, fl)))
         self.pool[-1].terms = terms
